@@ -126,7 +126,7 @@ def models(tier):
 
 
 def stages(tier, rng, only=None):
-    sch = ac.PRESET + PROBES
+    sch = ac.PRESET + PROBES + [m for s in (ac.P_UNI1, ac.P_PSE1, ac.P_IND1, ac.P_EXT) for m in ac.multiples(s, ks=(2,))]
     nm = ["ints", "letters", "collide"]
     out = [Stage("grid3x2", "Trace_Cost", run_case, lambda: _cases(grids.datasets(3, 2), sch, nm, True), _nt, _init)]
     n_rand = 500 if tier == "quick" else 5000
